@@ -582,7 +582,7 @@ func (r *rewriter) rewriteMultiSelect(n *ast.SelectStmt) ast.Stmt {
 		cc := cl.(*ast.CommClause)
 		if cc.Comm == nil {
 			hasDefault = "true"
-			clauses = append(clauses, &ast.CaseClause{List: []ast.Expr{&ast.UnaryExpr{Op: token.SUB, X: &ast.BasicLit{Kind: token.INT, Value: "1"}}}, Body: cc.Body})
+			clauses = append(clauses, &ast.CaseClause{List: nil, Body: cc.Body}) // the switch's default clause
 			continue
 		}
 		chTmp := ast.NewIdent(r.fresh("c"))
@@ -623,6 +623,11 @@ func (r *rewriter) rewriteMultiSelect(n *ast.SelectStmt) ast.Stmt {
 		}
 		clauses = append(clauses, &ast.CaseClause{List: []ast.Expr{&ast.BasicLit{Kind: token.INT, Value: strconv.Itoa(k)}}, Body: append(head, cc.Body...)})
 		k++
+	}
+	if hasDefault == "false" {
+		// keeps the construct a terminating statement when every clause of the select terminates
+		clauses = append(clauses, &ast.CaseClause{List: nil, Body: []ast.Stmt{&ast.ExprStmt{X: &ast.CallExpr{Fun: ast.NewIdent("panic"),
+			Args: []ast.Expr{&ast.BasicLit{Kind: token.STRING, Value: strconv.Quote("verifsim: impossible select index")}}}}}})
 	}
 	args := append([]ast.Expr{r.site(n, "select"), ast.NewIdent(hasDefault)}, cases...)
 	stmts := append(pre,
